@@ -143,6 +143,7 @@ pub fn install_panic_hook() {
 		if let Ok(mut g) = LAST_PANIC_GLOBAL.lock() {
 			*g = Some(format!("{msg}{loc}"));
 		}
+		let _g = alloc::harness();
 		let _ = LAST_PANIC.try_with(|p| *p.borrow_mut() = Some(format!("{msg}{loc}")));
 	}));
 }
@@ -217,7 +218,7 @@ pub fn run_with(sc: &Scenario, opts: Opts) -> Outcome {
 					SimReader::new(ci, datas[i].clone(), c.sched.clone(), c.rfault.clone(), c.eintr.clone(), c.over, log.clone())
 				};
 				let rst = reader.stats.clone();
-				verdict = guarded(|| translator.translate_reader(reader, from).map_err(|e| e.to_string()));
+				verdict = guarded(|| translator.translate_reader(reader, from).map_err(|e| { let _g = alloc::harness(); e.to_string() }));
 				let st = rst.borrow();
 				co.reads = st.reads;
 				co.data_reads = st.data_reads;
@@ -230,7 +231,7 @@ pub fn run_with(sc: &Scenario, opts: Opts) -> Outcome {
 				co.hang = st.hang;
 			} else {
 				let data = datas[i].clone();
-				verdict = guarded(|| translator.translate_slice(&data, from).map_err(|e| e.to_string()));
+				verdict = guarded(|| translator.translate_slice(&data, from).map_err(|e| { let _g = alloc::harness(); e.to_string() }));
 			}
 			{
 				let _g = alloc::harness();
